@@ -1113,3 +1113,122 @@ Definition model_refines_spec_statement : Prop :=
   forall e ops,
     outs (step e) fresh ops = outs (sem_step e) afresh ops /\
     mview (final (step e) fresh ops) = view (final (sem_step e) afresh ops).
+
+(* ------------------------------------------------------------------ *)
+(* The roundtrip under exactly the guard that excludes the finding     *)
+(* ------------------------------------------------------------------ *)
+
+(* the device has a private key, or no peer has the all-zero public key *)
+Definition roundtrip_guard (c : cfg) : bool :=
+  negb (c_priv c =? 0) || negb (has_peer 0 (c_peers c)).
+
+(* what a get shows, un-canonicalised: peers in order, each with its prefixes in order *)
+Definition config_of (c : cfg) : N * N * N * list peer := (c_priv c, c_port c, c_fwmark c, c_peers c).
+
+(* the get output of c replayed as one set on a fresh (down) device *)
+Definition replay (e : env) (c : cfg) : cfg * Z := ipc_set e fresh (ipc_get c).
+
+Theorem get_set_roundtrip_guarded e c :
+  env_ok e -> reachable e c -> roundtrip_guard c = true ->
+  snd (replay e c) = 0%Z /\ config_of (fst (replay e c)) = config_of c.
+Proof.
+  intros He R Hg.
+  destruct (get_set_roundtrip_partial e c He R) as (c' & E & E1 & E2 & E3 & E4 & _).
+  - intros Hz. unfold roundtrip_guard in Hg. rewrite Hz in Hg. cbn in Hg.
+    destruct (has_peer 0 (c_peers c)); [discriminate|reflexivity].
+  - unfold replay. rewrite E. cbn [fst snd]. split; [reflexivity|].
+    unfold config_of. rewrite E1, E2, E3, E4. reflexivity.
+Qed.
+
+(* The guard is exact: where it fails the replay loses the zero-key peer. *)
+Definition is_privkey_line (l : line) : bool := match l with LText KPrivateKey _ => true | _ => false end.
+
+Lemma apply_line_pub e c sl l c1 sl1 r :
+  is_privkey_line l = false -> apply_line e c sl l = (c1, sl1, r) -> c_pub c1 = c_pub c.
+Proof.
+  intros Hn H. unfold apply_line in H.
+  destruct l as [ | | |k s|ep|neg q]; try (injection H as <- _ _; reflexivity).
+  - destruct k; try discriminate.
+    + (* listen_port *) destruct sl; [|cbn in H; injection H as <- _ _; reflexivity..].
+      cbn [apply_device_line] in H. destruct (parse_uint 16 s) as [p|]; [|injection H as <- _ _; reflexivity].
+      pose proof (bind_update_fields e (set_port c p)) as (_ & _ & F & _).
+      destruct (bind_update e (set_port c p)) as [c2 ok]. injection H as <- _ _. exact F.
+    + (* fwmark *) destruct sl; [|cbn in H; injection H as <- _ _; reflexivity..].
+      cbn [apply_device_line] in H. destruct (parse_uint 32 s) as [m|]; [|injection H as <- _ _; reflexivity].
+      pose proof (bind_set_mark_fields e c m) as (_ & _ & F & _).
+      destruct (bind_set_mark e c m) as [c2 ok]. injection H as <- _ _. exact F.
+    + (* replace_peers *) destruct sl; cbn in H; try (injection H as <- _ _; reflexivity).
+      destruct (is_true s); injection H as <- _ _; reflexivity.
+    + (* public_key *) unfold apply_public_key in H.
+      destruct (parse_key s) as [k|]; [|injection H as <- _ _; reflexivity].
+      destruct (c_pub c =? k); [injection H as <- _ _; reflexivity|].
+      destruct (has_peer k (c_peers c)); injection H as <- _ _; reflexivity.
+    + destruct sl as [|k0 [|]|]; cbn in H; try (injection H as <- _ _; reflexivity);
+        destruct (is_true s); injection H as <- _ _; reflexivity.
+    + destruct sl as [|k0 cr|]; cbn in H; try (injection H as <- _ _; reflexivity);
+        destruct (is_true s); injection H as <- _ _; reflexivity.
+    + destruct sl as [|k0 cr|]; cbn in H; try (injection H as <- _ _; reflexivity);
+        destruct (parse_key s); injection H as <- _ _; reflexivity.
+    + destruct sl as [|k0 cr|]; cbn in H; try (injection H as <- _ _; reflexivity);
+        destruct (parse_uint 16 s); injection H as <- _ _; reflexivity.
+    + destruct sl as [|k0 cr|]; cbn in H; try (injection H as <- _ _; reflexivity);
+        destruct (is_true s); injection H as <- _ _; reflexivity.
+    + destruct sl as [|k0 cr|]; cbn in H; try (injection H as <- _ _; reflexivity);
+        destruct (is_one s); injection H as <- _ _; reflexivity.
+    + destruct sl as [|k0 cr|]; cbn in H; injection H as <- _ _; reflexivity.
+  - destruct sl as [|k0 cr|], ep; cbn in H; injection H as <- _ _; reflexivity.
+  - destruct sl as [|k0 cr|], q; cbn in H; injection H as <- _ _; reflexivity.
+Qed.
+
+Lemma set_loop_pub e : forall ls c sl,
+  forallb (fun l => negb (is_privkey_line l)) ls = true ->
+  c_pub (fst (set_loop e c sl ls)) = c_pub c.
+Proof.
+  induction ls as [|l t IH]; intros c sl H; [reflexivity|].
+  cbn [forallb] in H. apply andb_prop in H. destruct H as [Hl Ht].
+  destruct (is_blank l) eqn:Eb; [destruct l; try discriminate; reflexivity|].
+  assert (Hloop : set_loop e c sl (l :: t) =
+                  let '(c1, sl1, r1) := apply_line e c sl l in
+                  if (r1 =? 0)%Z then set_loop e c1 sl1 t else (c1, r1)).
+  { destruct l; try reflexivity. discriminate. }
+  rewrite Hloop. destruct (apply_line e c sl l) as [[c1 sl1] r1] eqn:Ea.
+  assert (Hp : c_pub c1 = c_pub c).
+  { eapply apply_line_pub; [|exact Ea]. destruct (is_privkey_line l); [discriminate|reflexivity]. }
+  destruct (r1 =? 0)%Z; [rewrite IH by exact Ht; exact Hp|exact Hp].
+Qed.
+
+Lemma render_peer_no_privkey p : forallb (fun l => negb (is_privkey_line l)) (render_peer p) = true.
+Proof.
+  unfold render_peer. rewrite !forallb_app. cbn. destruct (pr_ep p); cbn;
+    induction (pr_ips p) as [|q l IH]; cbn; auto.
+Qed.
+
+Lemma render_peers_no_privkey ps :
+  forallb (fun l => negb (is_privkey_line l)) (flat_map render_peer ps) = true.
+Proof.
+  induction ps as [|p ps IH]; [reflexivity|]. cbn [flat_map].
+  rewrite forallb_app, render_peer_no_privkey, IH. reflexivity.
+Qed.
+
+Lemma ipc_get_no_privkey c :
+  c_priv c = 0 -> forallb (fun l => negb (is_privkey_line l)) (ipc_get c) = true.
+Proof.
+  intros Hp. unfold ipc_get. rewrite Hp. cbn [N.eqb app].
+  rewrite !forallb_app, render_peers_no_privkey.
+  destruct (c_port c =? 0), (c_fwmark c =? 0); reflexivity.
+Qed.
+
+Theorem get_set_roundtrip_guard_exact e c :
+  env_ok e -> reachable e c -> roundtrip_guard c = false ->
+  has_peer 0 (c_peers c) = true /\ has_peer 0 (c_peers (fst (replay e c))) = false /\
+  config_of (fst (replay e c)) <> config_of c.
+Proof.
+  intros He R Hg. unfold roundtrip_guard in Hg. apply orb_false_elim in Hg. destruct Hg as [Hp Hz].
+  apply negb_false_iff in Hp, Hz. apply N.eqb_eq in Hp.
+  assert (Hpub : c_pub (fst (replay e c)) = 0).
+  { unfold replay, ipc_set. rewrite set_loop_pub; [reflexivity|apply ipc_get_no_privkey; exact Hp]. }
+  assert (Hr : has_peer 0 (c_peers (fst (replay e c))) = false).
+  { rewrite <- Hpub at 1. apply (self_key_never_a_peer e); [exact He|].
+    exists [OSet (ipc_get c)]. unfold final, replay. cbn [run step]. destruct (ipc_set e fresh (ipc_get c)); reflexivity. }
+  repeat split; auto. intros E. unfold config_of in E. injection E as _ _ _ E. rewrite E in Hr. congruence.
+Qed.
